@@ -269,6 +269,15 @@ def check_no_integer(rep, F, rule='FIXED-POINT'):
     def is_diff1(k):
         return _is(k, 'field') and k[2] == '1' and N._callp(N.norm(k[1]), r'arithmetic::diff$')
 
+    def is_distance(t):
+        """the distance between the rounding point and the first digit written out: +-(target - (scale - len))"""
+        try:
+            l = sub_len(lin_v(N.norm(t)), L0)
+        except Exception:
+            return False
+        d = N.add(target, lz, -1)
+        return bool(d) and (not N.add(l, d, -1) or not N.add(l, d, 1))
+
     for (atoms, out), eff in zip(paths, pe.effects):
         if not N.consistent(atoms):
             continue
@@ -277,8 +286,11 @@ def check_no_integer(rep, F, rule='FIXED-POINT'):
         nz_scale = None
         for a, c in atoms:
             a0 = N.norm(a)
-            if _is(a0, 'discr') and _is(N.norm(a0[1]), 'field') and N.norm(a0[1])[2] == '0' and N._callp(N.norm(N.norm(a0[1])[1]), r'arithmetic::diff$'):
-                dcall = N.norm(N.norm(a0[1])[1])
+            via_diff = _is(a0, 'discr') and _is(N.norm(a0[1]), 'field') and N.norm(a0[1])[2] == '0' and N._callp(N.norm(N.norm(a0[1])[1]), r'arithmetic::diff$')
+            # the same three-way test written as `a.cmp(&b)` with the distance taken by plain subtraction in the arms
+            via_cmp = _is(a0, 'discr') and _is(N.norm(a0[1]), 'cmp')
+            if via_diff or via_cmp:
+                dcall = N.norm(N.norm(a0[1])[1]) if via_diff else ('cmp', None, tuple(N.norm(a0[1])[1:3]))
                 x, y = sub_len(lin_v(dcall[2][0]), L0), sub_len(lin_v(dcall[2][1]), L0)
                 if N.add(x, target, -1) or N.add(y, lz, -1):
                     put('regime-test', False, '', 'the regime must be chosen by comparing target with the leading-zero count scale - len; it compares %s with %s' % (N.show_lin(x), N.show_lin(y)))
@@ -289,7 +301,7 @@ def check_no_integer(rep, F, rule='FIXED-POINT'):
                 elif c[0] == 'notin':
                     rest = {255, 0, 1} - set(c[1])
                     regime = 'Greater' if rest == {1} else ('LessEq' if rest <= {255, 0} else None)
-            if _is(a0, 'bin') and a0[1] in ('Gt', 'Ge', 'Ne', 'Eq', 'Lt', 'Le') and _is(N.norm(a0[3]), 'const') and is_diff1(N.norm(a0[2])):
+            if _is(a0, 'bin') and a0[1] in ('Gt', 'Ge', 'Ne', 'Eq', 'Lt', 'Le') and _is(N.norm(a0[3]), 'const') and (is_diff1(N.norm(a0[2])) or is_distance(a0[2])):
                 if a0[1] == 'Gt' and N.norm(a0[3]) == ('const', 0):
                     inter_pos = not (c == ('eq', 0))
                 elif a0[1] == 'Ne' and N.norm(a0[3]) == ('const', 0):
